@@ -379,6 +379,15 @@ def _run_case(case, ctx):
         ctx.count("default_order_file_roundtrips")
         if raw != sigfile.encode_data(X, nbits):
             ctx.violation(f"default-order-writer:{nbits}bit", "FileWriter.cwrite packs with a different field order than the per-depth default", case)
+        # the same samples handed over in other in-memory types (a boolean threshold mask for a 1-bit file, floats, wide integers)
+        for dt in ([np.bool_] if nbits == 1 else []) + [np.float32, np.int64, np.uint16]:
+            p3 = os.path.join(ctx.tmp, f"w{nbits}_{np.dtype(dt).name}.fil")
+            with FileWriter(p3, mode="w", nbits=nbits) as fw:
+                fw.write(hdr)
+                fw.cwrite(X.ravel().astype(dt))
+            ctx.count("default_order_file_roundtrips")
+            if sigfile.parse_file(p3)[2] != sigfile.encode_data(X, nbits):
+                ctx.violation(f"default-order-writer:{nbits}bit:{np.dtype(dt).name}", f"FileWriter.cwrite of {np.dtype(dt).name} samples writes other bytes than for the same samples as uint8", case)
         # independent writer -> library reader
         p2 = os.path.join(ctx.tmp, f"r{nbits}.fil")
         sigfile.write_fil(p2, X, nbits)
